@@ -1123,6 +1123,620 @@ pub fn run(report: &mut Report, replay: Option<&str>) {
 // numbers
 // ------------------------------------------------------------------------------------------
 
-fn numbers(_report: &mut Report, _rng: &mut Rng) {
-    let _ = (f64_wire(0.0), wire_f64("f0"), DecimalNumber::new(0.0), NumberExpression::from(DecimalNumber::new(0.0)));
+#[derive(Clone, Debug)]
+struct NumCase {
+    family: &'static str,
+    lit: NumberExpression,
+}
+
+fn ul(b: bool) -> &'static str {
+    if b { "u" } else { "l" }
+}
+
+fn lit_wire(n: &NumberExpression) -> String {
+    match n {
+        NumberExpression::Decimal(d) => match (d.get_exponent(), d.is_uppercase()) {
+            (Some(e), Some(u)) => format!("d:{}:{}:{}", f64_wire(d.compute_value()), e, ul(u)),
+            _ => format!("d:{}:n:l", f64_wire(d.compute_value())),
+        },
+        NumberExpression::Hex(h) => match (h.get_exponent(), h.is_exponent_uppercase()) {
+            (Some(e), Some(u)) => {
+                format!("h:{}:{}:{}:{}", h.get_raw_integer(), e, ul(u), ul(h.is_x_uppercase()))
+            }
+            _ => format!("h:{}:n:l:{}", h.get_raw_integer(), ul(h.is_x_uppercase())),
+        },
+        NumberExpression::Binary(b) => format!("b:{}:{}", b.get_raw_value(), ul(b.is_b_uppercase())),
+    }
+}
+
+fn same_double(a: f64, b: f64) -> bool {
+    if a.is_nan() || b.is_nan() {
+        a.is_nan() && b.is_nan()
+    } else {
+        a.to_bits() == b.to_bits()
+    }
+}
+
+fn decimal_cases(x: f64, family: &'static str, out: &mut Vec<NumCase>, exps: &[i64]) {
+    out.push(NumCase { family, lit: DecimalNumber::new(x).into() });
+    for &e in exps {
+        out.push(NumCase { family, lit: DecimalNumber::new(x).with_exponent(e, e % 2 == 0).into() });
+    }
+}
+
+fn boundary_doubles(rng: &mut Rng, thorough: bool) -> Vec<(f64, &'static str)> {
+    let mut v: Vec<(f64, &'static str)> = Vec::new();
+    for bits in [0u64, 1 << 63] {
+        v.push((f64::from_bits(bits), "zero"));
+    }
+    v.push((f64::INFINITY, "inf"));
+    v.push((f64::NEG_INFINITY, "inf"));
+    for bits in [0x7ff8000000000000u64, 0xfff8000000000000, 0x7ff0000000000001, 0x7fffffffffffffff] {
+        v.push((f64::from_bits(bits), "nan"));
+    }
+    // subnormals and the normal boundary
+    for bits in [1u64, 2, 3, 4, 5, 9, 10, 0xfffff, 0x8000000000000 - 1, 0x8000000000000, 0xfffffffffffff,
+        0x10000000000000, 0x10000000000001, 0x1fffffffffffff, 0x20000000000000] {
+        v.push((f64::from_bits(bits), "subnormal-boundary"));
+        v.push((-f64::from_bits(bits), "subnormal-boundary"));
+    }
+    for _ in 0..(if thorough { 3000 } else { 200 }) {
+        v.push((f64::from_bits(rng.next_u64() & 0xfffffffffffff), "subnormal-random"));
+    }
+    // powers of two and neighbours
+    for k in -1074..=1023i32 {
+        let p = 2f64.powi(k);
+        let b = p.to_bits();
+        v.push((p, "power-of-two"));
+        if !thorough && k % 7 != 0 {
+            continue;
+        }
+        if b > 1 {
+            v.push((f64::from_bits(b - 1), "power-of-two-neighbour"));
+        }
+        v.push((f64::from_bits(b + 1), "power-of-two-neighbour"));
+    }
+    // powers of ten and neighbours
+    for k in -324..=308i32 {
+        let p: f64 = format!("1e{}", k).parse().unwrap();
+        let b = p.to_bits();
+        v.push((p, "power-of-ten"));
+        if b > 1 {
+            v.push((f64::from_bits(b - 1), "power-of-ten-neighbour"));
+        }
+        v.push((f64::from_bits(b + 1), "power-of-ten-neighbour"));
+        for m in [2.0, 5.0, 9.0, 1.5, 12.0, 999.0, 1001.0] {
+            if thorough || k % 5 == 0 {
+                v.push((p * m, "power-of-ten-multiple"));
+            }
+        }
+    }
+    // 2^53 and integer-conversion neighbourhoods
+    for base in [52u32, 53, 54, 63, 64, 31, 32] {
+        let p = 2f64.powi(base as i32);
+        let b = p.to_bits();
+        for d in 0..6u64 {
+            v.push((f64::from_bits(b - d), "2^53-neighbourhood"));
+            v.push((f64::from_bits(b + d), "2^53-neighbourhood"));
+            v.push((-f64::from_bits(b + d), "2^53-neighbourhood"));
+        }
+    }
+    // shortest-representation hard cases
+    for s in [
+        "5e-324", "1.7976931348623157e308", "2.2250738585072014e-308", "2.2250738585072011e-308",
+        "2.225073858507201e-308", "4.9406564584124654e-324", "9007199254740993", "0.1", "0.2", "0.3",
+        "0.30000000000000004", "1e23", "9.999999999999999e22", "1e22", "1e21", "1e-7", "9.5367431640625e-7",
+        "123456789012345680", "1.2345678901234567e123", "8.41e21", "2.0e-3", "3.141592653589793",
+        "2.718281828459045", "0.000001", "0.0000001", "1e15", "1e16", "1e17", "999", "999.5", "1000",
+        "1100", "1234500", "100000", "123456", "0.09999999999999999", "0.1000000000000000055",
+        "4.35", "4.350000000000001", "5.0e-1", "1.0000000000000002", "0.9999999999999999",
+        "72057594037927928", "72057594037927936", "7.2057594037927945e16", "1.8446744073709552e19",
+        "3.5844466002796428e298", "1.7800590868057611e-307", "2.9802322387695312e-8",
+        "5.764607523034235e39", "1.152921504606847e40", "2.305843009213694e40", "4.4501477170144023e-308",
+        "6.631236871469758e-316", "3.237883913302901e-319", "5.687589e-320", "1.0e-320", "9.88e-324",
+    ] {
+        let x: f64 = s.parse().unwrap();
+        v.push((x, "shortest-hard-case"));
+        v.push((-x, "shortest-hard-case"));
+    }
+    for i in 0..1200u32 {
+        v.push((i as f64, "small-integer"));
+    }
+    for i in [1u32, 3, 7, 15, 25, 33, 99, 101, 250, 999, 1001] {
+        v.push((i as f64 / 8.0, "small-fraction"));
+        v.push((i as f64 / 10.0, "small-fraction"));
+        v.push((i as f64 / 1000.0, "small-fraction"));
+        v.push((i as f64 * 100.0, "round-hundreds"));
+        v.push((i as f64 * 1e5, "round-hundreds"));
+    }
+    for _ in 0..(if thorough { 400_000 } else { 20_000 }) {
+        let bits = rng.next_u64();
+        let x = f64::from_bits(bits);
+        if x.is_finite() {
+            v.push((x, "random-bits"));
+        }
+    }
+    for _ in 0..(if thorough { 100_000 } else { 5_000 }) {
+        // random decimal with few digits: short shortest representations
+        let digits = rng.below(100_000) as f64;
+        let e = rng.range(-30, 30) as i32;
+        let x: f64 = format!("{}e{}", digits, e).parse().unwrap();
+        v.push((x, "random-short-decimal"));
+    }
+    v
+}
+
+struct NumOutcome {
+    real: Result<Vec<u8>, String>,
+    reparsed_same: Option<bool>,
+    model: String,
+    value: String,
+}
+
+fn run_num_cases(cases: &[NumCase]) -> Vec<NumOutcome> {
+    par_chunks(cases, |model, chunk| {
+        let reals: Vec<Result<Vec<u8>, String>> = chunk
+            .iter()
+            .map(|c| guarded(|| hooks::write_number(&c.lit).into_bytes()))
+            .collect();
+        let lines: Vec<String> = chunk
+            .iter()
+            .zip(&reals)
+            .map(|(c, r)| format!("c13.num {} {}", lit_wire(&c.lit), hex(r.as_deref().unwrap_or(&[]))))
+            .collect();
+        let answers = model.ask_batch(&lines);
+        chunk
+            .iter()
+            .zip(reals)
+            .zip(answers)
+            .map(|((c, real), answer)| {
+                let parts: Vec<&str> = answer.split(' ').collect();
+                let get = |i: usize| parts.get(i).copied().unwrap_or("?").to_owned();
+                // hex / binary: darklua must read its own output back as the same node
+                let reparsed_same = match (&c.lit, &real) {
+                    (NumberExpression::Decimal(_), _) | (_, Err(_)) => None,
+                    (_, Ok(r)) => Some(
+                        guarded(|| String::from_utf8_lossy(r).parse::<NumberExpression>())
+                            .ok()
+                            .and_then(|x| x.ok())
+                            .map(|x| x == c.lit)
+                            .unwrap_or(false),
+                    ),
+                };
+                NumOutcome { real, reparsed_same, model: get(0), value: get(1) }
+            })
+            .collect()
+    })
+}
+
+fn lit_value(n: &NumberExpression) -> Option<f64> {
+    match n {
+        NumberExpression::Decimal(d) => Some(d.compute_value()),
+        NumberExpression::Hex(h) if h.get_exponent().is_none() => Some(h.get_raw_integer() as f64),
+        NumberExpression::Hex(_) => None, // `0x…p…` is not a Luau literal
+        NumberExpression::Binary(b) => Some(b.get_raw_value() as f64),
+    }
+}
+
+fn evaluate_num(report: &mut Report, cases: &[NumCase], outcomes: &[NumOutcome]) {
+    for (c, o) in cases.iter().zip(outcomes) {
+        let wire = lit_wire(&c.lit);
+        let input = json!({"kind": "number", "family": c.family, "literal": wire});
+        report.hist("number-family", c.family);
+        let real = match &o.real {
+            Ok(r) => r,
+            Err(e) => {
+                report.case(Some(("num", &wire)));
+                report.violation(Violation {
+                    kind: "oracle".into(),
+                    check: "write_number-panics".into(),
+                    what: format!("write_number panicked: {}", e),
+                    input,
+                    failing_input_found: true,
+                });
+                continue;
+            }
+        };
+        let text = String::from_utf8_lossy(real).into_owned();
+        let plain_integer = text.bytes().all(|b| b.is_ascii_digit());
+        report.case(if plain_integer { None } else { Some(("num", &wire)) });
+        let shape = if text.starts_with('(') {
+            "(a/b)"
+        } else if text.contains(['e', 'E']) && !text.starts_with("0x") && !text.starts_with("0X") {
+            "exponent"
+        } else if text.starts_with("0x") || text.starts_with("0X") {
+            "hex"
+        } else if text.starts_with("0b") || text.starts_with("0B") {
+            "binary"
+        } else if text.contains('.') {
+            "fraction"
+        } else {
+            "integer"
+        };
+        report.hist("number-written-shape", shape);
+        let mut oracle_failed = false;
+        match lit_value(&c.lit) {
+            Some(x) => {
+                let got = o.value.strip_prefix("some:").and_then(wire_f64);
+                if !got.map(|g| same_double(g, x)).unwrap_or(false) {
+                    oracle_failed = true;
+                    report.violation(Violation {
+                        kind: "oracle".into(),
+                        check: "number-roundtrip".into(),
+                        what: format!(
+                            "write_number gives {:?}, which denotes {} instead of {} ({})",
+                            text, o.value, f64_wire(x), x
+                        ),
+                        input: input.clone(),
+                        failing_input_found: true,
+                    });
+                }
+            }
+            None => report.hist("number-oracle", "hex-float(not a Luau literal; self-reparse only)"),
+        }
+        if o.reparsed_same == Some(false) {
+            oracle_failed = true;
+            report.violation(Violation {
+                kind: "oracle".into(),
+                check: "number-self-reparse".into(),
+                what: format!("darklua does not read its own {:?} back as the same number node", text),
+                input: input.clone(),
+                failing_input_found: true,
+            });
+        }
+        if o.model != hex(real) && !oracle_failed {
+            report.violation(Violation {
+                kind: "correspondence".into(),
+                check: "write_number".into(),
+                what: format!(
+                    "model {:?} != real {:?}",
+                    unhex(&o.model).map(|b| String::from_utf8_lossy(&b).into_owned()),
+                    text
+                ),
+                input,
+                failing_input_found: false,
+            });
+        }
+        if shape == "exponent" && report.samples.len() < 10 {
+            report.sample(json!({"literal": wire, "written": text, "denotes": o.value}));
+        }
+    }
+}
+
+/// `Expression::from(f64)` through the three generators: the text must denote the double
+fn check_from_f64(report: &mut Report, doubles: &[(f64, &'static str)]) {
+    struct Out {
+        texts: Vec<(String, Result<String, String>)>,
+        inner: Option<(bool, NumberExpression)>,
+    }
+    let outs: Vec<(Out, Vec<String>)> = par_chunks(doubles, |model, chunk| {
+        let mut res = Vec::new();
+        for (x, _) in chunk {
+            let expr = guarded(|| Expression::from(*x));
+            let (texts, inner) = match &expr {
+                Ok(e) => {
+                    let inner = match e {
+                        Expression::Number(n) => Some((false, n.clone())),
+                        Expression::Unary(u) => match u.get_expression() {
+                            Expression::Number(n) => Some((true, n.clone())),
+                            _ => None,
+                        },
+                        _ => None,
+                    };
+                    (generator_outputs(e), inner)
+                }
+                Err(e) => (vec![("from".to_owned(), Err(e.clone()))], None),
+            };
+            let mut lines = Vec::new();
+            for (_, t) in &texts {
+                let stripped: String = t.as_deref().unwrap_or("").chars().filter(|c| *c != ' ' && *c != '\n').collect();
+                lines.push(format!("c13.nval {}", hex(stripped.as_bytes())));
+            }
+            if let Some((_, n)) = &inner {
+                lines.push(format!("c13.wnum {}", lit_wire(n)));
+            }
+            let answers = model.ask_batch(&lines);
+            res.push((Out { texts, inner }, answers));
+        }
+        res
+    });
+    for ((x, family), (out, answers)) in doubles.iter().zip(outs) {
+        report.hist("from-f64-family", family);
+        for (i, (gname, text)) in out.texts.iter().enumerate() {
+            report.case(Some(("from", gname.as_str(), x.to_bits())));
+            let input = json!({"kind": "from-f64", "generator": gname, "double": f64_wire(*x)});
+            let text = match text {
+                Ok(t) => t,
+                Err(e) => {
+                    report.violation(Violation {
+                        kind: "oracle".into(),
+                        check: "from-f64-panics".into(),
+                        what: format!("Expression::from({}) / generator panicked: {}", x, e),
+                        input,
+                        failing_input_found: true,
+                    });
+                    continue;
+                }
+            };
+            let got = answers[i].strip_prefix("some:").and_then(wire_f64);
+            if !got.map(|g| same_double(g, *x)).unwrap_or(false) {
+                report.violation(Violation {
+                    kind: "oracle".into(),
+                    check: "from-f64-roundtrip".into(),
+                    what: format!("{} writes Expression::from({:e}) as {:?}, which denotes {}", gname, x, text, answers[i]),
+                    input,
+                    failing_input_found: true,
+                });
+                continue;
+            }
+            if let Some((negated, _)) = &out.inner {
+                let model_text = answers
+                    .last()
+                    .and_then(|m| unhex(m))
+                    .map(|b| format!("{}{}", if *negated { "-" } else { "" }, String::from_utf8_lossy(&b)));
+                let stripped: String = text.chars().filter(|c| *c != ' ' && *c != '\n').collect();
+                if model_text.as_deref() != Some(stripped.as_str()) {
+                    report.violation(Violation {
+                        kind: "correspondence".into(),
+                        check: "from-f64-text".into(),
+                        what: format!("{} writes {:?}, model {:?}", gname, text, model_text),
+                        input,
+                        failing_input_found: false,
+                    });
+                }
+            }
+        }
+    }
+}
+
+// ---- parsing ------------------------------------------------------------------------------
+
+fn sprinkle_underscores(s: &str, rng: &mut Rng) -> String {
+    let mut out = String::new();
+    for (i, ch) in s.chars().enumerate() {
+        out.push(ch);
+        if i + 1 < s.len() + 1 && rng.chance(1, 5) {
+            out.push('_');
+            if rng.chance(1, 6) {
+                out.push('_');
+            }
+        }
+    }
+    out
+}
+
+fn literal_texts(rng: &mut Rng, thorough: bool) -> Vec<(String, &'static str)> {
+    let mut v: Vec<(String, &'static str)> = Vec::new();
+    for s in [
+        "0", "1", "123", "123_456", "123.24", "123.245_6", "0._24", "123.", ".123", "1e10", "1e_10",
+        "123e101", "123e+121", "123e-456", "123E4", "123E-456", "10.12e8", "10_0.12_e_8",
+        "4.6982573308436185e159", "10.e8", "0x12", "0_x12", "0_x_12", "0x12_13", "0X12", "0_X13", "0x12a",
+        "0x12A", "0x1bF2A", "0x12p4", "0xABP3", "0b0", "0_b1", "0b1010_1100", "0B0", "0_B1", "", "1e", "1E",
+        "._1", "1e-", "1E-", "1e_-1", "1e_+1", "1E_-1", "1E_+1", "0x1p", "0x1p-3", "0x1P", "0x1p1Z", "0x1P1Z",
+        "0x1P-3", "0b190", "0B190", "1_e+5", "1e-_5", "1__2", "1._", "1_._5", "5_.2", "1e5e6", "1.2.3", "1..2",
+        "0x", "0b", "0x_", "0b_", "0xg", "0b2", "00x1", "0x1e5", "0xe", "0xE1", "0b1e1", "0e0", "0e5", "00", "007",
+        "0.0", ".0", "0.", "1e+0", "1e-0", "1e0000005", "9007199254740993", "9007199254740992.5",
+        "9007199254740992.500000000000000000000000000001", "18446744073709551615", "18446744073709551616",
+        "0xffffffffffffffff", "0x10000000000000000", "0xfffffffffffff801", "0xfffffffffffffbff",
+        "0xfffffffffffffc00", "0x20000000000001", "0x20000000000002", "0x20000000000003",
+        "0b1111111111111111111111111111111111111111111111111111111111111111",
+        "0b10000000000000000000000000000000000000000000000000000000000000000",
+        "1e309", "1.7976931348623159e308", "1.797693134862315807e308", "4.9e-324", "2.4703282292062327e-324",
+        "2.4703282292062328e-324", "2.47032822920623272e-324", "1e-400", "1e400", "1e99999999999999999999",
+        "1e-99999999999999999999", "1e9223372036854775807", "1e9223372036854775808", "0e99999999999999999999",
+        "123456789012345678901234567890", "0.000000000000000000000000000001", "1e5_", "1_", "1.e5", ".5e5",
+        "5.e", "0x1.8p1", "0x.8", "0xp1", "0x1p+1", "0x1p4294967295", "0x1p4294967296", "0x1_0p1", "0x10p60",
+        "inf", "nan", "infinity", "NaN", "+1", "-1", "1f", "1d", "0b101b", "0x12h", " 1", "1 ", "1e 5", "١",
+        "0X_A_b", "0xA_P1", "0xe+1", "1E5e", "1ee5", "e5", ".e5", "._", ".", "_1", "1_e5", "1e5_0", "1e+_5",
+    ] {
+        v.push((s.to_owned(), "curated"));
+    }
+    let n = if thorough { 300_000 } else { 25_000 };
+    for _ in 0..n {
+        let int: String = (0..rng.below(6)).map(|_| (b'0' + rng.below(10) as u8) as char).collect();
+        let frac: String = (0..rng.below(6)).map(|_| (b'0' + rng.below(10) as u8) as char).collect();
+        let kind = rng.below(10);
+        let mut s = match kind {
+            0 | 1 => {
+                // hex
+                let digits: String = (0..1 + rng.below(16))
+                    .map(|_| *rng.pick(b"0123456789abcdefABCDEF") as char)
+                    .collect();
+                format!("0{}{}", rng.pick(&["x", "X"]), digits)
+            }
+            2 => {
+                let digits: String = (0..1 + rng.below(66)).map(|_| *rng.pick(b"01") as char).collect();
+                format!("0{}{}", rng.pick(&["b", "B"]), digits)
+            }
+            3 => int.clone(),
+            4 => format!("{}.{}", int, frac),
+            5 | 6 => {
+                let e: String = (0..1 + rng.below(3)).map(|_| (b'0' + rng.below(10) as u8) as char).collect();
+                format!("{}.{}{}{}{}", int, frac, rng.pick(&["e", "E"]), rng.pick(&["", "+", "-"]), e)
+            }
+            7 => {
+                let e: String = (0..1 + rng.below(3)).map(|_| (b'0' + rng.below(10) as u8) as char).collect();
+                format!("{}{}{}{}", if int.is_empty() { "7" } else { &int }, rng.pick(&["e", "E"]), rng.pick(&["", "+", "-"]), e)
+            }
+            8 => {
+                // long digit strings around halfway points
+                let base = (1u64 << 53) + rng.below(64) as u64;
+                format!("{}.{}{}", base, rng.pick(&["5", "49999999999999999999", "50000000000000000001", "5000"]), frac)
+            }
+            _ => {
+                // soup of token characters
+                (0..1 + rng.below(8)).map(|_| *rng.pick(b"0123456789._eExXbBpP+-aF") as char).collect()
+            }
+        };
+        if rng.chance(1, 2) {
+            s = sprinkle_underscores(&s, rng);
+        }
+        v.push((s, match kind { 0 | 1 => "random-hex", 2 => "random-binary", 9 => "random-soup", 8 => "random-halfway", _ => "random-decimal" }));
+    }
+    v
+}
+
+fn check_parsing(report: &mut Report, texts: &[(String, &'static str)]) {
+    let parser = Parser::default();
+    struct P {
+        real: Result<Result<NumberExpression, String>, String>,
+        via_parser: Option<Option<NumberExpression>>,
+        answer: String,
+    }
+    let outs: Vec<P> = par_chunks(texts, |model, chunk| {
+        let lines: Vec<String> = chunk.iter().map(|(t, _)| format!("c13.pnum {}", hex(t.as_bytes()))).collect();
+        let answers = model.ask_batch(&lines);
+        chunk
+            .iter()
+            .zip(answers)
+            .map(|((t, _), answer)| {
+                let real = guarded(|| t.parse::<NumberExpression>().map_err(|e| format!("{:?}", e)));
+                P { real, via_parser: None, answer }
+            })
+            .collect()
+    });
+    let mut outs = outs;
+    // the full parser on `return <literal>` for token-shaped texts (sequential: it is cheap)
+    for ((t, _), o) in texts.iter().zip(outs.iter_mut()) {
+        let token_shaped = o.answer.split(' ').nth(1).map(|d| d != "none").unwrap_or(false);
+        if token_shaped {
+            let code = format!("return {}", t);
+            let parsed = guarded(|| parser.parse(&code)).ok().and_then(|r| r.ok());
+            o.via_parser = Some(parsed.and_then(|b| match b.get_last_statement() {
+                Some(darklua_core::nodes::LastStatement::Return(r)) => match r.iter_expressions().next() {
+                    Some(Expression::Number(n)) => Some(n.clone()),
+                    _ => None,
+                },
+                _ => None,
+            }));
+        }
+    }
+    for ((t, family), o) in texts.iter().zip(&outs) {
+        let parts: Vec<&str> = o.answer.split(' ').collect();
+        let (model, desc, refval) = (parts.first().copied().unwrap_or("?"), parts.get(1).copied().unwrap_or("?"), parts.get(2).copied().unwrap_or("?"));
+        let input = json!({"kind": "number-text", "family": family, "text": t, "text_hex": hex(t.as_bytes())});
+        report.case(Some(("parse", t)));
+        report.hist("number-text-family", family);
+        let real = match &o.real {
+            Ok(r) => r,
+            Err(e) => {
+                report.violation(Violation {
+                    kind: "oracle".into(),
+                    check: "from_str-panics".into(),
+                    what: format!("NumberExpression::from_str({:?}) panicked: {}", t, e),
+                    input,
+                    failing_input_found: true,
+                });
+                continue;
+            }
+        };
+        let real_wire = match real {
+            Ok(n) => format!("ok:{}", lit_wire(n)),
+            Err(e) => format!("err:{}", e),
+        };
+        let refbits = refval.strip_prefix("some:").and_then(wire_f64);
+        let mut oracle_failed = false;
+        match (real, refbits) {
+            (Ok(n), Some(want)) => {
+                report.hist("number-parse", "accepted-by-both");
+                let got = n.compute_value();
+                if !same_double(got, want) {
+                    oracle_failed = true;
+                    report.violation(Violation {
+                        kind: "oracle".into(),
+                        check: "number-parse-value".into(),
+                        what: format!("{:?} parses to {} ({}), Luau gives {}", t, f64_wire(got), got, refval),
+                        input: input.clone(),
+                        failing_input_found: true,
+                    });
+                }
+            }
+            (Ok(_), None) => report.hist(
+                "number-parse",
+                if desc == "none" && t.to_ascii_lowercase().contains('p') {
+                    "accepted-by-darklua-only(hex float, Lua 5.2 syntax)"
+                } else {
+                    "accepted-by-darklua-only(not a Luau number token)"
+                },
+            ),
+            (Err(_), Some(_)) => {
+                report.hist("number-parse", "rejected-by-darklua-only(valid Luau)");
+                if report.notes.len() < 12 {
+                    report.notes.push(format!("darklua rejects the valid Luau literal {:?} ({})", t, real_wire));
+                }
+            }
+            (Err(_), None) => report.hist("number-parse", "rejected-by-both"),
+        }
+        if let (Some(via), Ok(n)) = (&o.via_parser, real) {
+            // the parser must agree with FromStr on the value of token-shaped literals; a literal
+            // the parser's own lexer refuses is a robustness matter, not a wrong value
+            match via {
+                None => {
+                    report.hist("number-parse", "Parser::parse refuses a literal from_str accepts");
+                    if report.notes.len() < 20 {
+                        report.notes.push(format!("Parser::parse refuses `return {}` (valid Luau; from_str accepts it)", t));
+                    }
+                }
+                Some(p) if !same_double(p.compute_value(), n.compute_value()) && !oracle_failed => {
+                    report.violation(Violation {
+                        kind: "oracle".into(),
+                        check: "parser-vs-from_str".into(),
+                        what: format!("Parser::parse(\"return {}\") gives {}, from_str gives {}", t, lit_wire(p), real_wire),
+                        input: input.clone(),
+                        failing_input_found: true,
+                    });
+                    oracle_failed = true;
+                }
+                Some(_) => {}
+            }
+        }
+        if model != real_wire && !oracle_failed {
+            report.violation(Violation {
+                kind: "correspondence".into(),
+                check: "from_str".into(),
+                what: format!("{:?}: model {} != real {}", t, model, real_wire),
+                input,
+                failing_input_found: false,
+            });
+        }
+    }
+}
+
+fn numbers(report: &mut Report, rng: &mut Rng) {
+    let thorough = report.is_thorough();
+    let doubles = boundary_doubles(rng, thorough);
+    let mut cases: Vec<NumCase> = Vec::new();
+    for (x, family) in &doubles {
+        let mut exps: Vec<i64> = Vec::new();
+        if x.is_finite() && *x != 0.0 {
+            let l = x.abs().log10().floor() as i64;
+            exps.extend([l, l - 1, l + 1]);
+        }
+        if *family != "random-bits" && *family != "small-integer" {
+            exps.extend([0, 1, -1, 5, -5, 22, 23, -23, 308, -308, 309, -324, -400, 400, 2147483647, -2147483648, 2147483648, -2147483649, i64::MAX, i64::MIN]);
+        } else if rng.chance(1, 4) {
+            exps.push(rng.range(-330, 330));
+        }
+        decimal_cases(*x, family, &mut cases, &exps);
+    }
+    // hex and binary nodes
+    let mut ints: Vec<u64> = vec![0, 1, 9, 10, 15, 16, 255, 256, 0xdead_beef, u32::MAX as u64, 1 << 52, (1 << 53) - 1, 1 << 53, (1 << 53) + 1, (1 << 53) + 2, u64::MAX - 1, u64::MAX, 0xfffffffffffff800, 0xfffffffffffffbff, 0xfffffffffffffc00];
+    for _ in 0..(if thorough { 20_000 } else { 2_000 }) {
+        ints.push(rng.next_u64() >> rng.below(64));
+    }
+    for &n in &ints {
+        for up in [false, true] {
+            cases.push(NumCase { family: "hex", lit: darklua_core::nodes::HexNumber::new(n, up).into() });
+            cases.push(NumCase { family: "binary", lit: darklua_core::nodes::BinaryNumber::new(n, up).into() });
+        }
+        let e = *rng.pick(&[0u32, 1, 4, 10, 63, 64, 1000, u32::MAX]);
+        cases.push(NumCase { family: "hex-exponent", lit: darklua_core::nodes::HexNumber::new(n, false).with_exponent(e, rng.chance(1, 2)).into() });
+    }
+    let outcomes = run_num_cases(&cases);
+    evaluate_num(report, &cases, &outcomes);
+
+    check_from_f64(report, &doubles);
+
+    let texts = literal_texts(rng, thorough);
+    check_parsing(report, &texts);
 }
